@@ -173,6 +173,17 @@ def representation_known(ctx):
     if len(outs) != 1 or outs[0].kind != 'return' or obj is None:
         return False
     a = obj.attrs
+    # a field the pre-states below do not write (a countdown, a mode flag, a helper object) means the state is held
+    # differently: writing _status/_bytes/_len alone would put the tokenizer into a state its own code never produces
+    # (fields that are only ever assigned, never read, carry no state)
+    import ast as _ast
+    cls = ctx.p.cls(TOK_MOD, 'Tokenizer')
+    read = {n.attr for n in _ast.walk(cls.node) if isinstance(n, _ast.Attribute) and isinstance(n.ctx, (_ast.Load, _ast.Del))
+            and isinstance(n.value, _ast.Name) and n.value.id == 'self'}
+    read |= {n.args[1].value for n in _ast.walk(cls.node) if isinstance(n, _ast.Call) and isinstance(n.func, _ast.Name)
+             and n.func.id in ('getattr', 'hasattr') and len(n.args) >= 2 and isinstance(n.args[1], _ast.Constant)}
+    if (set(a) - {'_status', '_bytes', '_messages', '_len'}) & read:
+        return False
     return '_status' in a and isinstance(a.get('_bytes'), AList) and isinstance(a.get('_messages'), AList)
 
 
